@@ -4,6 +4,8 @@
 # files of these runs go to /tmp/sm-ev, never to /verif/evidence.
 FILTER="${1:-.}"
 mkdir -p /tmp/sm-ev /tmp/sm-out
+# the machinery runs from a snapshot of /verif's working tree, so that editing /verif while the matrix runs cannot mix versions
+SNAP=/tmp/sm-verif-$$; rm -rf $SNAP; mkdir -p $SNAP; rsync -a --exclude .git --exclude evidence --exclude replay /verif/ $SNAP/; export SNAP
 ls /verif/seeded | grep -E "$FILTER" | xargs -P ${PAR:-5} -I{} sh -c '
   name={}; pid=$(/venv/bin/python -c "import json;print(json.load(open(\"/verif/seeded/$name/meta.json\"))[\"property\"])")
   wt=/tmp/sm-$name
@@ -12,8 +14,9 @@ ls /verif/seeded | grep -E "$FILTER" | xargs -P ${PAR:-5} -I{} sh -c '
   if ! git -C $wt apply /verif/seeded/$name/patch.diff 2>/tmp/sm-out/$name.err; then echo "$name $pid PATCH-DOES-NOT-APPLY"; git -C /repo worktree remove --force $wt; exit 0; fi
   ids="$pid ${EXTRA_IDS}"
   for id in $ids; do
-    OPFYTHON_SRC=$wt VERIF_EVIDENCE_DIR=/tmp/sm-ev/$name VERIF_REPLAY_DIR=/tmp/sm-ev/$name/replay /verif/bin/check $id > /tmp/sm-out/$name-$id.out 2>&1; rc=$?
+    OPFYTHON_SRC=$wt VERIF_EVIDENCE_DIR=/tmp/sm-ev/$name VERIF_REPLAY_DIR=/tmp/sm-ev/$name/replay $SNAP/bin/check $id > /tmp/sm-out/$name-$id.out 2>&1; rc=$?
     echo "$name $id rc=$rc $(grep -c "^VIOLATION" /tmp/sm-out/$name-$id.out)v $(grep -m1 "^VIOLATION\|MACHINERY" /tmp/sm-out/$name-$id.out | sed "s/.*# //" | cut -c1-150)"
   done
   git -C /repo worktree remove --force $wt
 '
+rm -rf $SNAP
